@@ -288,6 +288,11 @@ func (c *Config) getField(name string, idx int, opts *options) (value, Error) {
 
 // setField supports the options: PathSep, MetaData
 func (c *Config) setField(name string, idx int, v value, options []Option) Error {
+	if c.fields == nil {
+		// the zero value of Config
+		c.fields = &fields{}
+	}
+
 	opts := makeOptions(options)
 	p := parsePathIdx(name, idx, opts)
 
